@@ -535,6 +535,11 @@ pub fn extract_client_random(data: &[u8]) -> Result<Option<Vec<u8>>, ()> {
     crate::tls_listener::TlsListener::verif_extract_client_random(data)
 }
 
+/// The peeking step of the TLS listener alone: (bytes it buffered, client random)
+pub async fn tls_prebuffer(stream: tokio::net::TcpStream) -> io::Result<(usize, Option<Vec<u8>>)> {
+    crate::tls_listener::TlsListener::verif_prebuffer(stream).await
+}
+
 pub struct VTlsAcceptor(crate::tls_listener::TlsAcceptor);
 
 pub async fn tls_listen(stream: tokio::net::TcpStream) -> io::Result<VTlsAcceptor> {
